@@ -56,7 +56,7 @@ void AsyncFileAppender::discard(LogEntry& entry) noexcept {
 
 int AsyncFileAppender::close() noexcept {
   if (_write_thread.joinable()) {
-    _queue.push([](Item& target) {
+    _queue.push<true, false, false>([](Item& target) {
       target.entry.size = 0;
       target.file = nullptr;
     });
